@@ -378,3 +378,29 @@ def one_clock(fx):
             if a and a.get("adt") in (C + "::ValidUntil", C + "::SecondsSinceServerStart"):
                 lit.append(b.short)
     yield ob("R-C10-4", "ctor#literal", not lit, None, None, "ValidUntil/SecondsSinceServerStart literals outside aquatic_common: %s" % lit, trivial=True)
+
+
+@PROP.rule("R-C10-6", floor=3, doc="every cleaning pass runs the cleaner of both address families, whatever the configuration (IPv4-mapped peers of a dual-stack "
+                                   "IPv6 socket live in the IPv4 map even when no IPv4 socket is served)")
+def both_families(fx):
+    per_family = {"udp": r"TorrentMapShards.*::clean_and_get_statistics$", "http": r"storage::TorrentMap.*::clean$", "ws": r"storage::TorrentMap::clean$"}
+    for tr, name in CLEAN_ENTRY.items():
+        b = fx.fn(name)
+        n = 0
+        bad = set()
+        for p in cpaths(fx, b):
+            if p.end != "return":
+                continue
+            n += 1
+            no_clock = False
+            for a in p.atoms:
+                v = sym.atom_variant(fx, a)
+                if v and "seconds_elapsed" in show(v[0]) and ((v[1] == ["Some"] and not v[2]) or (v[1] == ["None"] and v[2])):
+                    no_clock = True
+            if no_clock:
+                continue
+            recv = sorted({show(strip_after(e[2][0])).rstrip("'") for e in p.calls(per_family[tr])})
+            if recv != ["self.ipv4", "self.ipv6"]:
+                bad.add("a pass cleans only %s" % recv)
+        yield ob("R-C10-6", "families#%s#both_cleaned" % tr, n >= 1 and not bad, b, None,
+                 "%d returning paths of the cleaning entry point; each with a clock sample cleans self.ipv4 and self.ipv6: %s" % (n, sorted(bad) or "yes"), {"paths": n})
